@@ -38,18 +38,18 @@ CHECKS = {
              text="Decides the wiring of each replicated request kind to its own persistence function with a storage effect, error surfacing, determinism of apply (no RNG/env/clock outside entity timestamps) and apply-before-acknowledge.", ref="§5 C32"),
  "C06": dict(tech="transitive field write/read effects over the call graph (mutator kind table), representation-completeness of deleting mutators vs creators/compaction, raw-handle bypass inventory; closure-predicate analysis of adjacency removals (by relationship id), dominance of endpoint liveness tests over adjacency writes, per-function field-read coherence of tier pairs",
              text="Decides which representations of an edge/node each mutator maintains: a deleting mutator that recycles ids must cover every representation creators and compaction write (three known findings: the frozen CSR tier), counts read only maintained data, creators are complete, labels of stored nodes change only through index-maintaining methods, adjacency entries are removed by relationship id only, every creator tests both endpoints, and read views read whole (frozen, buffer) pairs of one direction.", ref="§5 C06"),
- "C07": dict(tech="copy-on-write guard rule on functions taking last_mut of a version chain; generic-instantiation match for flatten over Vec<Vec<Node>>; chain-emptying callee class in delete_node",
-             text="Decides the three structural ways versioned reads break: in-place mutation of an old version (three known findings: get_node_mut, add/remove_label), scans enumerating all versions, deletion leaving older versions.", ref="§5 C07"),
+ "C07": dict(tech="copy-on-write guard rule on functions taking last_mut of a version chain; generic-instantiation match for flatten over Vec<Vec<Node>>; chain-emptying callee class in delete_node; reachability of last_mut from the older-version side avoiding the clone push; write-effect pairing and base-image provenance for the relationship version log",
+             text="Decides the three structural ways versioned reads break: in-place mutation of an old version (three known findings: get_node_mut, add/remove_label), scans enumerating all versions, deletion leaving older versions; and for relationships that every property change is logged and the first logged write keeps the state it replaces (both fixed).", ref="§5 C07"),
  "C08": dict(tech="closure-predicate evaluation over version orderings, range-type and def-use check of the drain bound, aggregate shape of the watermark",
              text="Decides that GC keeps the latest version at or below the watermark (rposition predicate class, exclusive drain of exactly that index) and that the automatic watermark is the min start version of active transactions.", ref="§5 C08"),
  "C09": dict(tech="dominance / must-pass obligations over the MIR of commit/abort, predicate evaluation of the conflict test, per-variant read-version table from the discriminant switch",
              text="Decides the per-call obligations of first-committer-wins (status gate, strict conflict predicate on both write sets, strictly increasing version on every success, terminal statuses) and the read version per isolation level. Interleaving enumeration is not needed for these (commit takes &mut self) and not claimed beyond them.", ref="§5 C09"),
  "C02": dict(tech="T-PAIR maintenance matrix (call-graph reachability from each kill mutator to index_remove), forward taint from the index-predicate position to a removal from the residual list, shared frozen-tier effect rule; field-read coherence of (frozen, buffer) pairs per read view and caller-merges-both-tiers; no index removal after insertion within one pass (CFG without back edges)",
              text="Decides that every way a node leaves an indexed (label, property, value) removes it from the index, that index-derived predicates remain in the residual filter, that maintenance never removes what it just inserted, that every adjacency read view reads both tiers of one direction, and (with C06) the deletion clause of the tier. Equivalence of the two planners / parallel filter is not decided.", ref="§5 C02"),
- "C10": dict(tech="HIR match-arm facts of the Ord / Hash / rank impls (diagonal and cross-arm coverage, float primitive per arm, tag literals) plus impl-kind facts (derived vs manual)",
-             text="Decides comparator-law lints: one float primitive per comparator (fixed), diagonal and same-bucket cross coverage, Hash exhaustive with distinct tags, rank exhaustive, and the Eq/Ord/Hash impl-kind disagreement (one known finding). Transitivity over values is not decided.", ref="§5 C10"),
- "C11": dict(tech="T-PAIR matrix on the constraint index, order of lookup vs writes in set_node_property, use-def check for discarded Results of constraint-checking writes in the executor; mutation-point analysis (no error exit after a mutation in a store mutator)",
-             text="Decides that each way a node gives up a constrained value releases it, that the check precedes the writes, that a refused write leaves index and node untouched (validate-then-mutate), and that write operators do not swallow the violation.", ref="§5 C11"),
+ "C10": dict(tech="HIR match-arm facts of the Ord / Hash / rank impls (diagonal and cross-arm coverage, float primitive per arm, tag literals) plus impl-kind facts (derived vs manual); dominance of NaN tests over the delegation to the index order; call inventory of comparator bodies (no derived ==)",
+             text="Decides comparator-law lints: one float primitive per comparator (fixed), diagonal and same-bucket cross coverage, Hash exhaustive with distinct tags, rank exhaustive, the Eq/Ord/Hash impl-kind disagreement (one known finding), NaN decided for every pair before ORDER BY delegates to the index order (fixed), and no comparator shortcut through the derived ==. Transitivity over values is not decided.", ref="§5 C10"),
+ "C11": dict(tech="T-PAIR matrix on the constraint index, order of lookup vs writes in set_node_property, use-def check for discarded Results of constraint-checking writes in the executor; mutation-point analysis (no error exit after a mutation in a store mutator); dominance of registration over backfill; gain-side obligations per mutator kind; reachability of the release from both sides of the null test",
+             text="Decides that each way a node gives up a constrained value releases it, that the check precedes the writes, that each way a node starts to hold one (SET, label add) checks and registers it, that a null write releases, that a constraint is registered before its backfill, that a refused write leaves index and node untouched (validate-then-mutate), and that write operators do not swallow the violation.", ref="§5 C11"),
  "C28": dict(tech="T-PAIR staleness matrix over edge/property mutators, field-effect check of the stale fallback, accessor inventory of planner-side users",
              text="Decides completeness of staleness marking and measure propagation over the mutator table and that rewrites see only usable entries. Encodings and roll-up arithmetic are not decided.", ref="§5 C28"),
  "C29": dict(tech="T-PAIR matrix on the vector index, field-read effect of the declared metric, sibling liveness-validation rule between index-consuming operators",
